@@ -16,7 +16,7 @@ from props import known_common as kc
 from props import c13
 
 RULE = ("(format string, entry, follow mode, spelling of the starting point) cases; formats of 1-8 items drawn from verbatim characters, the nine escapes, "
-        "octal escapes up to \\177, %%, and the directives p f h H P d s n i U G m y Y l with optional '-' flag and width 0-12; "
+        "octal escapes \\000-\\777 (one byte each), %%, and the directives p f h H P d s n i U G m y Y l with optional '-' flag and width 0-12; "
         "non-trivial = distinct case whose format has at least one directive")
 ASSUMPTIONS = [
     "numeric directives print the decimal (octal for %m) rendering of the record C13 selects; os.lstat/os.stat supply the records",
@@ -37,7 +37,7 @@ def gen_format(rng):
         elif r < 0.45:
             items.append(("e", rng.choice(list(ESC))))
         elif r < 0.5:
-            v = rng.randrange(0, 128)
+            v = rng.choice([rng.randrange(0, 128), rng.randrange(128, 256), rng.randrange(256, 512)])
             items.append(("o", "%03o" % v))
         elif r < 0.53:
             items.append(("F",))
@@ -64,14 +64,15 @@ def show(items):
 
 
 def render_ref(items, values):
-    out = ""
+    """the bytes written: characters in UTF-8, an octal escape as the one byte with that value (the low eight bits of three digits)"""
+    out = b""
     for it in items:
         if it[0] == "c":
-            out += it[1]
+            out += it[1].encode()
         elif it[0] == "e":
-            out += chr(ESC[it[1]])
+            out += bytes([ESC[it[1]]])
         elif it[0] == "o":
-            out += chr(int(it[1], 8))
+            out += bytes([int(it[1], 8) & 0xff])
         elif it[0] == "F":
             break                 # \c: nothing more is printed for this file
         else:
@@ -79,8 +80,15 @@ def render_ref(items, values):
             if it[2] != "":
                 w = int(it[2])
                 v = v.ljust(w) if it[3] else v.rjust(w)
-            out += v
+            out += v.encode()
     return out
+
+
+RAW_BASE = 0x110000          # Printf.raw_base: how the model writes a byte that is no character
+
+
+def model_bytes(codes):
+    return b"".join(bytes([c - RAW_BASE]) if c >= RAW_BASE else chr(c).encode() for c in codes)
 
 
 def values_for(root, names, mode, r_abs):
@@ -178,24 +186,26 @@ def run(ctx):
             code, out, err = wc.decode_find(i)
             if ofile:
                 if out != b"":
-                    bad.append(("find -fprintf wrote to standard output", mode, root, ent, fmt, out.decode("utf-8", "replace"), "", err))
+                    bad.append(("find -fprintf wrote to standard output", mode, root, ent, fmt, out, b"", err))
                     continue
                 try:
                     out = open(os.path.join(forest.dir, ofile.encode()), "rb").read()
                 except OSError:
                     out = b"<file not created>"
-            mo = None if not m.startswith("ok") else ("".join(chr(int(x)) for x in m[3:].split(".")) if len(m) > 3 and m[3:] != "-" else "")
+            mo = None if not m.startswith("ok") else (model_bytes(int(x) for x in m[3:].split(".")) if len(m) > 3 and m[3:] != "-" else b"")
             ctx.count((mode, root, tuple(ent), fmt), any(it[0] == "d" for it in items), ["mode=" + mode, "depth=%d" % len(ent), "action=%s" % ("fprintf" if ofile else "printf"),
                                                                                            "directives=%d" % sum(it[0] == "d" for it in items)])
             if mo != ref:
                 bad.append(("model-vs-reference", mode, root, ent, fmt, mo, ref, err))
-            elif out.decode("utf-8", "replace") != ref or (code != 0 and not (mode == "L" and ent)):   # under -L the walk of r meets the looping link (C02's subject)
-                bad.append(("find", mode, root, ent, fmt, out.decode("utf-8", "replace"), ref, err))
+            elif out != ref or (code != 0 and not (mode == "L" and ent)):   # under -L the walk of r meets the looping link (C02's subject)
+                bad.append(("find", mode, root, ent, fmt, out, ref, err))
         ctx.sample({"format": keep[0][4], "starting_point": keep[0][1], "entry": keep[0][2]})
         for kind, mode, root, ent, fmt, got, ref, err in bad[:3]:
             ctx.violation("%s: find -%s %s (entry %s) -printf %r: got %r, reference %r" % (kind, mode, root, "/".join(ent) or "(the starting point)", fmt, got, ref),
                           {"property": "C16", "kind": "correspondence", "what": kind, "mode": mode, "starting_point": root, "entry": ent, "format": fmt,
-                           "output": got, "reference": ref, "stderr": err.decode("utf-8", "replace")[:200],
+                           "output": got.decode("utf-8", "replace") if isinstance(got, bytes) else got, "reference": ref.decode("utf-8", "replace") if isinstance(ref, bytes) else ref,
+                           "output_hex": fw.hexs(got) if isinstance(got, bytes) else None, "reference_hex": fw.hexs(ref) if isinstance(ref, bytes) else None,
+                           "stderr": err.decode("utf-8", "replace")[:200],
                            "explain": "C16_render / C16_width fix the output for a documented format given the directive values", "total_disagreements": len(bad)})
         path_values(ctx, forest, names, r_abs, spellings)
         known(ctx, forest)
